@@ -228,6 +228,9 @@ namespace pika::split_tuple_detail {
             // shared state by now.
             os.reset();
 
+#if defined(PIKA_VERIF)
+            PIKA_VERIF_POINT(321, this);
+#endif
             predecessor_done = true;
 
             {
@@ -263,9 +266,15 @@ namespace pika::split_tuple_detail {
                 // the vector must see predecessor_done = true after
                 // taking the lock in their threads and will not add
                 // continuations to the vector.
+#if defined(PIKA_VERIF)
+                PIKA_VERIF_POINT(322, this);
+#endif
                 std::lock_guard<mutex_type> l{mtx};
             }
 
+#if defined(PIKA_VERIF)
+            PIKA_VERIF_POINT(323, this);
+#endif
             if (!continuations.empty())
             {
                 // We move the continuations to a local variable to
@@ -284,6 +293,9 @@ namespace pika::split_tuple_detail {
         template <std::size_t Index, typename Receiver>
         void add_continuation(Receiver& receiver)
         {
+#if defined(PIKA_VERIF)
+            PIKA_VERIF_POINT(324, this);
+#endif
             if (predecessor_done)
             {
                 // If we read predecessor_done here it means that one of
@@ -297,6 +309,9 @@ namespace pika::split_tuple_detail {
                 // If predecessor_done is false, we have to take the
                 // lock to potentially add the continuation to the
                 // vector of continuations.
+#if defined(PIKA_VERIF)
+                PIKA_VERIF_POINT(325, this);
+#endif
                 std::unique_lock<mutex_type> l{mtx};
 
                 if (predecessor_done)
